@@ -108,7 +108,7 @@ def run_shard(acc, shard, nshards, seed, tier):
     @st.composite
     def cases(draw):
         kind = draw(st.sampled_from(KINDS))
-        n = draw(st.sampled_from([130, 200, 239, 240, 241, 241, 300, 400, 600, 130, 200, 239, 240, 241, 300, 400, 600, 1500, 3500]))
+        n = draw(st.sampled_from([130, 200, 239, 240, 241, 241, 300, 400, 600, 130, 200, 239, 240, 241, 300, 400, 600, 2049, 4097]))
         default = draw(st.sampled_from([True, False, False]))
         params = 'default'
         if not default:
